@@ -39,3 +39,9 @@ pub mod vax {
 }
 broadcast use {vax::axiom_string_eq_obeys, vax::axiom_string_eq, vax::axiom_f64_eq_sym, vax::axiom_f64_cmp_converse,
                vax::axiom_string_add_assign_obeys, vax::axiom_string_add_assign_req, vax::axiom_string_add_assign};
+// R19 target for `String::from(E)`, E a &str (or a &String, through deref coercion): the string of the same characters
+#[verifier::external_body]
+pub fn verif_string_from(s: &str) -> (r: String)
+    ensures r@ == s@,
+{ String::from(s) }
+
